@@ -291,6 +291,34 @@ def engines(rc):
         and tm.has(u.node, "_bp.calibrate()", bo) and "self.one_and_half_junction_tree" not in tu and "self.start_junction_tree" not in tu
     if not oku:
         rc.fail(u, u.node, "belief updates must edit only the given engine's private junction tree and re-calibrate it", construct="update belief")
+    # order of the update: multiply the new message in BEFORE dividing the previous potential out — wherever the previous potential is 0 the message is 0 as well,
+    # and the factor algebra defines 0/0 := 0; dividing first gives x/0 = inf and then inf * 0 = nan
+    pot, msg = u.params[3], u.params[4]
+    divs = []
+    for n in walk_no_nested(u.node):
+        if isinstance(n, ast.Assign) and len(n.targets) == 1 and isinstance(n.targets[0], ast.Name):
+            for x in ast.walk(n.value):
+                if isinstance(x, ast.BinOp) and isinstance(x.op, ast.Div) and dotted(x.right) == pot:
+                    divs.append((n, x))
+    for n, x in divs:
+        # what the dividend holds: follow the (re-assigned) name backwards through the preceding statements of the same block
+        names = {y.id for y in ast.walk(x.left) if isinstance(y, ast.Name)}
+        has_msg = msg in names
+        blk = getattr(n, "_parent", None)
+        body = getattr(blk, "body", []) if blk is not None else []
+        if n in getattr(blk, "orelse", []):
+            body = blk.orelse
+        if n in body:
+            for prev in reversed(body[:body.index(n)]):
+                if isinstance(prev, ast.Assign) and isinstance(prev.targets[0], ast.Name) and prev.targets[0].id in names:
+                    if any(isinstance(y, ast.Name) and y.id == msg for y in ast.walk(prev.value)):
+                        has_msg = True
+        rc.ob(f"_update_belief: `{norm(n, 70)}` divides a product that already contains the message: {has_msg}")
+        if not has_msg:
+            rc.fail(u, n, f"_update_belief divides by `{pot}` before the new message is multiplied in: with exact zeros in the CPDs x/0 = inf and then inf * 0 = nan "
+                    "(smoothed marginals come back as nan); multiply first, then 0/0 := 0 cancels", construct="update belief divides before multiplying")
+    if not divs:
+        rc.fail(u, u.node, "the previous interface potential must be divided out of the updated clique belief", construct="update belief no division")
     rc.ob("_update_belief edits only the engine's own junction tree, then calibrates")
 
 
@@ -310,6 +338,8 @@ def defuse(rc):
 _BW_MERGE = "            if evidence_time:\n                evidence_time.update(interface_nodes_dict)\n            mid_bp = BeliefPropagation(self.one_and_half_junction_tree)\n            self._update_belief(mid_bp, self.in_clique, potential_dict[time_slice - 1])"
 
 MUTANTS = [
+    dict(kind="break", name="update-belief-divides-first", file=DI, expect="C17.engines",
+         old="                new_factor = old_factor * message\n                new_factor = new_factor / clique_potential", new="                new_factor = (old_factor / clique_potential) * message"),
     dict(kind="repair", name="backward-merges-whenever-carried-evidence-exists", file=DI, gone="C17.carry",
          old=_BW_MERGE, new="            if interface_nodes_dict:\n                evidence_time = {**(evidence_time or {}), **interface_nodes_dict}\n            mid_bp = BeliefPropagation(self.one_and_half_junction_tree)\n            self._update_belief(mid_bp, self.in_clique, potential_dict[time_slice - 1])"),
     dict(kind="break", name="backward-carried-evidence-stale-again", file=DI, expect="C17.carry",
